@@ -668,7 +668,72 @@ def history_cases(draw):
     return case
 
 
+# ------------------------------------------------------------ large hubs
+
+def big_edges(kind, n, extra):
+    """Connected networks on 66..100 nodes with a node of degree > 64."""
+    edges = {(0, j) for j in range(1, n)}                  # hub = node 0
+    if kind == "wheel":
+        edges |= {(j, j + 1) for j in range(1, n - 1)} | {(1, n - 1)}
+    for a, b in extra:
+        a, b = 1 + a % (n - 1), 1 + b % (n - 1)
+        if a != b:
+            edges.add((min(a, b), max(a, b)))
+    return sorted(edges)
+
+
+def oracle_big(case, rec):
+    """Sizes the small-graph generators never reach: the float32 kernels
+    and any fixed-capacity scratch space see degrees of 65..99."""
+    n = case["n"]
+    edges = big_edges(case["kind"], n, case["extra"])
+    c = {"n": n, "edges": edges, "den": 4, "x": None,
+         "r": [case["r"][k % len(case["r"])] for k in range(len(edges))]}
+    Z = z_matrix(c)
+    rec.label("kind:" + case["kind"])
+    ok, net = rec.call("construct", build, c, Z)
+    if not ok:
+        return
+    rec.nontrivial(True)
+    Y = C.admittance(Z)
+    ER = C.effective_resistance_matrix(Y)
+    ad_ref = C.admittive_degree(Y)
+    ok, ad = rec.call("admittive_degree", net.admittive_degree)
+    if ok:
+        rec.close(ad, ad_ref, "big_admittive_degree_def", rtol=1e-9)
+    cancel = 2e-6 * float(np.abs(ER).max())
+    for i in (0, 1 + case["node"] % (n - 1)):
+        ok, v = rec.call("vertex_current_flow_betweenness",
+                         net.vertex_current_flow_betweenness, int(i))
+        if ok:
+            rec.close(v, C.vertex_current_flow_betweenness(Y, i),
+                      "big_vertex_current_flow_betweenness_def",
+                      rtol=10 * VCFB_RTOL, atol=cancel * float(ad_ref[i]),
+                      detail="node %d of %d" % (i, n))
+        for j in (n - 1, n // 2):
+            if j == i:
+                continue
+            ok, v = rec.call("effective_resistance",
+                             net.effective_resistance, int(i), int(j))
+            if ok:
+                rec.close(v, ER[i, j], "big_effective_resistance",
+                          rtol=1e-4, atol=cancel)
+
+
+@st.composite
+def big_cases(draw):
+    return {"n": draw(st.integers(66, 100)),
+            "kind": draw(st.sampled_from(["star", "wheel", "wheel"])),
+            "extra": draw(st.lists(st.tuples(st.integers(0, 200),
+                                             st.integers(0, 200)).map(list),
+                                   max_size=40)),
+            "r": draw(st.lists(st.integers(1, 16), min_size=3, max_size=9)),
+            "node": draw(st.integers(0, 200))}
+
+
 SUBCHECKS = [
+    SubCheck("big_hubs", oracle_big, gen=big_cases,
+             quick=(4, 6), thorough=(8, 40)),
     SubCheck("network", oracle_network, gen=base_cases,
              quick=(8, 250), thorough=(16, 1600)),
     SubCheck("series_parallel", oracle_sp, gen=sp_trees,
